@@ -60,6 +60,16 @@ func init() {
 		"(encoding/binary.bigEndian).Uint32":    specBEGet(4),
 		"(encoding/binary.bigEndian).Uint64":    specBEGet(8),
 		"math/bits.RotateLeft32": specRotl32,
+		"(encoding/binary.bigEndian).PutUint16":    specPut(2, true),
+		"(encoding/binary.bigEndian).PutUint32":    specPut(4, true),
+		"(encoding/binary.bigEndian).PutUint64":    specPut(8, true),
+		"(encoding/binary.littleEndian).PutUint16": specPut(2, false),
+		"(encoding/binary.littleEndian).PutUint32": specPut(4, false),
+		"(encoding/binary.littleEndian).PutUint64": specPut(8, false),
+		"(encoding/binary.littleEndian).Uint16":    specLEGet(2),
+		"(encoding/binary.littleEndian).Uint32":    specLEGet(4),
+		"(encoding/binary.littleEndian).Uint64":    specLEGet(8),
+		"strings.HasPrefix": specBytesHasPrefix,
 		"(*sync/atomic.Bool).Load":           specAtomicBool("Load"),
 		"(*sync/atomic.Bool).Store":          specAtomicBool("Store"),
 		"(*sync/atomic.Bool).CompareAndSwap": specAtomicBool("CompareAndSwap"),
@@ -527,5 +537,48 @@ func specAtomicBool(op string) specFn {
 			st.heap[key] = app("store", h, base.T, ite(okv, args[1].T, cur))
 			return boolVal(okv)
 		}
+	}
+}
+
+// specPut: binary.{Big,Little}Endian.PutUintN(b, v) writes the n bytes of v into b[0:n]
+// (the slice argument is written back into the caller's slice expression).
+func specPut(n int, big bool) specFn {
+	return func(env *Env, recv *Val, args []Val, st *State, call *ast.CallExpr) Val {
+		c := env.c
+		b, v := args[0], args[1]
+		s := env.sortOf(b.Ty)
+		env.rangeAssume(st, b)
+		env.safety(st, "index", app("<=", fmt.Sprint(n), app("len_"+s, b.T)), call.Pos())
+		arr := app("arr_"+s, b.T)
+		for i := 0; i < n; i++ {
+			shift := i
+			if big {
+				shift = n - 1 - i
+			}
+			byteV := fmt.Sprintf("(mod (div %s %s) 256)", v.T, pow2(int64(8*shift)).String())
+			arr = app("store", arr, fmt.Sprint(i), byteV)
+		}
+		nv := Val{T: app("mk_"+s, arr, app("len_"+s, b.T)), Ty: b.Ty}
+		if len(call.Args) >= 1 && !env.contract {
+			c.assignSliceTarget(env, call.Args[0], nv, st)
+		}
+		return Val{}
+	}
+}
+
+func specLEGet(n int) specFn {
+	return func(env *Env, recv *Val, args []Val, st *State, call *ast.CallExpr) Val {
+		b := args[0]
+		s := env.sortOf(b.Ty)
+		env.rangeAssume(st, b)
+		env.safety(st, "index", app("<=", fmt.Sprint(n), app("len_"+s, b.T)), call.Pos())
+		var parts []string
+		for i := 0; i < n; i++ {
+			el := Val{T: app("select", app("arr_"+s, b.T), fmt.Sprint(i)), Ty: tByte}
+			env.rangeAssume(st, el)
+			parts = append(parts, app("*", el.T, pow2(int64(8*i)).String()))
+		}
+		ty := map[int]types.Type{2: types.Typ[types.Uint16], 4: types.Typ[types.Uint32], 8: types.Typ[types.Uint64]}[n]
+		return Val{T: app("+", parts...), Ty: ty}
 	}
 }
